@@ -1011,6 +1011,14 @@ Section Theorems.
     rewrite (Hsp o Ho Hp) in Hs. discriminate.
   Qed.
 
+  (* an output path that exists when the request starts exists at every moment of the request *)
+  Lemma existing_output_never_absent p :
+    is_tmp p = false -> lookup p f0 <> None -> lookup p (fst final) <> None.
+  Proof.
+    destruct final_inv as (l & rest & rs & Hsnd & HC & HF).
+    intros Hp H0. exact (co_present _ _ _ _ HC p Hp H0).
+  Qed.
+
   Lemma success_installs_new l rs o :
     NoDup (map o_path objs) ->
     snd final = (l, []) :: rs -> l_dead l = false ->
